@@ -120,35 +120,44 @@ package evidence
 // a deleted request no longer decodes (absent, or the tombstone marker which is not a serialised request); a failed delete changes nothing
 //@   ensures kfam(str(key)) == 3 ==> evR(es)[kid(str(key))] == old(evR(es))[kid(str(key))] || len(evR(es)[kid(str(key))]) == 0 || !deserok(evR(es)[kid(str(key))], "AllegationRequest")
 
-// fmt.Sprintf is uninterpreted in the engine: the formatting of the keys (distinct literal prefixes, %s of an
-// Address is Address.String() which is injective) is assumed
-//@ assume func (*EvidenceStore).getSuspiciousValidatorKey
+// Key formats (fmt.Sprintf with constant formats is modelled by the engine, T-FMT): the exact text of every key is
+// VERIFIED on the builder's body; what stays trusted (`trusts`) is the classification of that text into a family
+// (kfam) and an id (kid), i.e. that the literal prefixes are distinct and addrStr is injective - a fact about the
+// spec functions, not about the code.
+//@ func (*EvidenceStore).getSuspiciousValidatorKey
 //@   modifies nothing
-//@   ensures kfam(str(result)) == 1 && kid(str(result)) == str(validatorAddress)
+//@   trusts kfam(str(result)) == 1 && kid(str(result)) == str(validatorAddress)
+//@   ensures str(result) == "_ssvk_" + addrStr(str(validatorAddress))                                        // C19.key-format
 
-//@ assume func (*EvidenceStore).getValidatorStatusKey
+//@ func (*EvidenceStore).getValidatorStatusKey
 //@   modifies nothing
-//@   ensures kfam(str(result)) == 2 && kid(str(result)) == str(validatorAddress)
+//@   trusts kfam(str(result)) == 2 && kid(str(result)) == str(validatorAddress)
+//@   ensures str(result) == "_vss_" + addrStr(str(validatorAddress))                                         // C19.key-format
 
-//@ assume func (*EvidenceStore).getAllegationRequestKey
+//@ func (*EvidenceStore).getAllegationRequestKey
 //@   modifies nothing
-//@   ensures kfam(str(result)) == 3 && kid(str(result)) == requestID
+//@   trusts kfam(str(result)) == 3 && kid(str(result)) == requestID
+//@   ensures str(result) == "_ark_" + requestID                                                              // C19.key-format
 
-//@ assume func (*EvidenceStore).getAllegationTrackerKey
+//@ func (*EvidenceStore).getAllegationTrackerKey
 //@   modifies nothing
-//@   ensures kfam(str(result)) == 4
+//@   trusts kfam(str(result)) == 4
+//@   ensures str(result) == "_atark"                                                                         // C19.key-format
 
-//@ assume func (*EvidenceStore).getVoteBlockKey
+//@ func (*EvidenceStore).getVoteBlockKey
 //@   modifies nothing
-//@   ensures kfam(str(result)) == 0
+//@   trusts kfam(str(result)) == 0
+//@   ensures str(result) == "_svb_" + @int_str(height)                                                       // C19.key-format
 
-//@ assume func (*EvidenceStore).getCumulativeVote
+//@ func (*EvidenceStore).getCumulativeVote
 //@   modifies nothing
-//@   ensures kfam(str(result)) == 0
+//@   trusts kfam(str(result)) == 0
+//@   ensures str(result) == "_scv"                                                                           // C19.key-format
 
-//@ assume func (*EvidenceStore).getSuspiciousVL
+//@ func (*EvidenceStore).getSuspiciousVL
 //@   modifies nothing
-//@   ensures kfam(str(result)) == 0
+//@   trusts kfam(str(result)) == 0
+//@   ensures str(result) == "_svvl"                                                                          // C19.key-format
 
 // ---------------------------------------------------------------- history records
 
